@@ -54,6 +54,16 @@ static void slope(const std::string& fn, int reg, double ad, double fd, double r
     TR->emit({{"e", "Slope"}, {"fn", fn}, {"reg", reg}, {"ad", scaled(ad, ref)}, {"fd", scaled(fd, ref)}});
 }
 
+// The derivative delivered by automatic differentiation of a piecewise (bi)linear function is the slope of the piece
+// in use, so it must agree with the left or with the right difference quotient of the function (the two differ where
+// the step straddles a kink of the interpolant); the quotient closer to the AD value is reported.
+template <class F>
+static void slope1(const std::string& fn, int reg, double ad, F&& f, double x, double h, double ref) {
+    const double f0 = f(x), fl = (f0 - f(x - h)) / h, fr = (f(x + h) - f0) / h;
+    const double fd = std::abs(ad - fl) <= std::abs(ad - fr) ? fl : fr;
+    slope(fn, reg, ad, fd, ref);
+}
+
 int main(int argc, char** argv) {
     if (argc < 3) { std::fprintf(stderr, "usage: pvtmon scripts trace\n"); return 2; }
     install_terminate();
@@ -94,10 +104,10 @@ int main(int argc, char** argv) {
                                 const double q = p + f * (p1 - p);
                                 between("oil.B", reg, B, B1, 1.0 / oil.inverseFormationVolumeFactor(reg, T, q, 0.0));
                                 between("oil.mu", reg, mu, mu1, oil.viscosity(reg, T, q, 0.0));
-                                const double dp = 1e-4 * (p1 - p);
+                                const double dp = 1e-5 * (p1 - p);
                                 const Eval bE = oil.inverseFormationVolumeFactor(reg, Eval(T), Eval::createVariable(q, 0), Eval(0.0));
-                                const double fd = (oil.inverseFormationVolumeFactor(reg, T, q + dp, 0.0) - oil.inverseFormationVolumeFactor(reg, T, q - dp, 0.0)) / (2 * dp);
-                                slope("oil.dinvB/dp", reg, bE.derivative(0), fd, std::abs(1.0 / B - 1.0 / B1) / (p1 - p));
+                                slope1("oil.dinvB/dp", reg, bE.derivative(0), [&](double x) { return oil.inverseFormationVolumeFactor(reg, T, x, 0.0); }, q, dp,
+                                       std::abs(1.0 / B - 1.0 / B1) / (p1 - p));
                             }
                         }
                     }
@@ -140,12 +150,12 @@ int main(int argc, char** argv) {
                                 try { invert("oil.Rs(psat(r))", reg, r, oil.saturatedGasDissolutionFactor(reg, T, oil.saturationPressure(reg, T, r))); }
                                 catch (const std::exception&) { invert("oil.Rs(psat(r))", reg, r, 0.0); }      // the search gave up
                                 // derivatives in the undersaturated region above this pressure
-                                const double pu = q + 0.3 * (ps1 - ps), dp = 1e-4 * (ps1 - ps), dr = 1e-4 * (rs1 - rs);
+                                const double pu = q + 0.3 * (ps1 - ps), dp = 1e-5 * (ps1 - ps), dr = 1e-5 * (rs1 - rs);
                                 const Eval bp = oil.inverseFormationVolumeFactor(reg, Eval(T), Eval::createVariable(pu, 0), Eval::createVariable(rsq, 1));
-                                const double fdp = (oil.inverseFormationVolumeFactor(reg, T, pu + dp, rsq) - oil.inverseFormationVolumeFactor(reg, T, pu - dp, rsq)) / (2 * dp);
-                                const double fdr = (oil.inverseFormationVolumeFactor(reg, T, pu, rsq + dr) - oil.inverseFormationVolumeFactor(reg, T, pu, rsq - dr)) / (2 * dr);
-                                slope("oil.dinvB/dp", reg, bp.derivative(0), fdp, std::abs(1.0 / Bs - 1.0 / Bs1) / (ps1 - ps));
-                                slope("oil.dinvB/dRs", reg, bp.derivative(1), fdr, std::abs(1.0 / Bs - 1.0 / Bs1) / (rs1 - rs));
+                                slope1("oil.dinvB/dp", reg, bp.derivative(0), [&](double x) { return oil.inverseFormationVolumeFactor(reg, T, x, rsq); }, pu, dp,
+                                       std::abs(1.0 / Bs - 1.0 / Bs1) / (ps1 - ps));
+                                slope1("oil.dinvB/dRs", reg, bp.derivative(1), [&](double x) { return oil.inverseFormationVolumeFactor(reg, T, pu, x); }, rsq, dr,
+                                       std::abs(1.0 / Bs - 1.0 / Bs1) / (rs1 - rs));
                             }
                         }
                     }
@@ -164,10 +174,10 @@ int main(int argc, char** argv) {
                                 const double q = p + f * (p1 - p);
                                 between("gas.B", reg, B, B1, 1.0 / gas.inverseFormationVolumeFactor(reg, T, q, 0.0, 0.0));
                                 between("gas.mu", reg, mu, mu1, gas.viscosity(reg, T, q, 0.0, 0.0));
-                                const double dp = 1e-4 * (p1 - p);
+                                const double dp = 1e-5 * (p1 - p);
                                 const Eval bE = gas.inverseFormationVolumeFactor(reg, Eval(T), Eval::createVariable(q, 0), Eval(0.0), Eval(0.0));
-                                const double fd = (gas.inverseFormationVolumeFactor(reg, T, q + dp, 0.0, 0.0) - gas.inverseFormationVolumeFactor(reg, T, q - dp, 0.0, 0.0)) / (2 * dp);
-                                slope("gas.dinvB/dp", reg, bE.derivative(0), fd, std::abs(1.0 / B - 1.0 / B1) / (p1 - p));
+                                slope1("gas.dinvB/dp", reg, bE.derivative(0), [&](double x) { return gas.inverseFormationVolumeFactor(reg, T, x, 0.0, 0.0); }, q, dp,
+                                       std::abs(1.0 / B - 1.0 / B1) / (p1 - p));
                             }
                         }
                     }
@@ -212,12 +222,12 @@ int main(int argc, char** argv) {
                                     try { invert("gas.Rv(psat(r))", reg, r, gas.saturatedOilVaporizationFactor(reg, T, gas.saturationPressure(reg, T, r))); }
                                     catch (const std::exception&) { invert("gas.Rv(psat(r))", reg, r, 0.0); }
                                 }
-                                const double rvu = 0.6 * rvq, dp = 1e-4 * (p1 - p), dr = 1e-4 * std::max(rvs1, rvs);
+                                const double rvu = 0.6 * rvq, dp = 1e-5 * (p1 - p), dr = 1e-5 * std::max(rvs1, rvs);
                                 const Eval bp = gas.inverseFormationVolumeFactor(reg, Eval(T), Eval::createVariable(q, 0), Eval::createVariable(rvu, 1), Eval(0.0));
-                                const double fdp = (gas.inverseFormationVolumeFactor(reg, T, q + dp, rvu, 0.0) - gas.inverseFormationVolumeFactor(reg, T, q - dp, rvu, 0.0)) / (2 * dp);
-                                const double fdr = (gas.inverseFormationVolumeFactor(reg, T, q, rvu + dr, 0.0) - gas.inverseFormationVolumeFactor(reg, T, q, rvu - dr, 0.0)) / (2 * dr);
-                                slope("gas.dinvB/dp", reg, bp.derivative(0), fdp, std::abs(1.0 / Bs - 1.0 / Bs1) / (p1 - p));
-                                slope("gas.dinvB/dRv", reg, bp.derivative(1), fdr, std::abs(1.0 / Bs) / std::max(rvs1, rvs));
+                                slope1("gas.dinvB/dp", reg, bp.derivative(0), [&](double x) { return gas.inverseFormationVolumeFactor(reg, T, x, rvu, 0.0); }, q, dp,
+                                       std::abs(1.0 / Bs - 1.0 / Bs1) / (p1 - p));
+                                slope1("gas.dinvB/dRv", reg, bp.derivative(1), [&](double x) { return gas.inverseFormationVolumeFactor(reg, T, q, x, 0.0); }, rvu, dr,
+                                       std::abs(1.0 / Bs) / std::max(rvs1, rvs));
                             }
                         }
                     }
@@ -231,7 +241,7 @@ int main(int argc, char** argv) {
                     const double q = pref * 1.3, dp = 1e-5 * pref;
                     const Eval bE = wat.inverseFormationVolumeFactor(reg, Eval(T), Eval::createVariable(q, 0), Eval(0.0), Eval(0.0));
                     const double fd = (wat.inverseFormationVolumeFactor(reg, T, q + dp, 0.0, 0.0) - wat.inverseFormationVolumeFactor(reg, T, q - dp, 0.0, 0.0)) / (2 * dp);
-                    slope("wat.dinvB/dp", reg, bE.derivative(0), fd, 0.0);
+                    slope("wat.dinvB/dp", reg, bE.derivative(0), fd, 0.0);      // smooth function: centred quotient
                 }
                 ++reg;
             }
